@@ -268,6 +268,25 @@ def inproc(ctx):
         overlap = len({k for o in cfg["opts"] for k in o["ks"]}) < sum(len(o["ks"]) for o in cfg["opts"])
         ctx.case(key=("opts", repr(cfg), tuple(evs)), tags=["option-list", "opts:overlap=" + str(overlap), "opts:pattern=" + pt],
                  size=len(evs))
+    # record --disable (tracing starts switched off) with trace_on / trace_off triggers and filters
+    offcases = []
+    for i in range(ctx.n(15, 150)):
+        cfg = {"shape": rng.choice(["pg", "cyg"]), "trig": {}, "pattern": "simple", "disable": True}
+        ks = rng.sample(range(6), rng.randrange(1, 4))
+        cfg["trig"][ks[0]] = {"trace_on": True}
+        for k in ks[1:]:
+            r = rng.random()
+            cfg["trig"][k] = ({"trace_off": True} if r < 0.35 else {"filter": rng.random() < 0.6} if r < 0.6 else
+                              {"depth": rng.choice([1, 2])} if r < 0.8 else {"time": rng.choice([5, 100])})
+        if rng.random() < 0.4:
+            cfg["depth"] = rng.choice([2, 3, 4])
+        if rng.random() < 0.4:
+            cfg["threshold"] = rng.choice([1, 5])
+        fo = F.assign_times(rng, F.gen_shape(rng, 6, rng.choice([6, 12, 20]), 5), durs=DURS)
+        evs = F.flatten(fo)
+        res = mcgen.run_case(h, cfg, evs)
+        offcases.append({"cfg": cfg, "evs": evs, "res": res})
+        ctx.case(key=("disable", repr(cfg), tuple(evs)), tags=["record--disable", "shape:" + cfg["shape"]], size=len(evs))
     # ---- evaluate in Coq
     terms = [mcgen.case_term(c["cfg"], c["evs"], c["res"]) for c in cases]
     defs = "Definition cases : list case4 := [\n%s\n].\n" % ";\n".join(terms)
@@ -318,6 +337,8 @@ def inproc(ctx):
         "(%s, %s, %s, %s)" % (F.coq_cfg(dict(c["cfg"], shape=sh), mch.SIZES), F.coq_events(c["evs"]),
                               mcgen.coq_recs(c[sh]["recs"]), coq.coq_bool(sh == "pg"))
         for c in fincases for sh in ("pg", "cyg"))
+    defs += "Definition offcases : list case4 := [\n%s\n].\n" % ";\n".join(
+        mcgen.case_term(c["cfg"], c["evs"], c["res"]) for c in offcases)
     defs += "Definition optcases : list case4 := [\n%s\n].\n" % ";\n".join(
         mcgen.case_term(dict(c["cfg"], shape=sh), c["evs"], c[sh]) for c in optcases for sh in ("pg", "cyg"))
     res = coq.run_cases(ctx, "c05_cases", mcgen.PRE, defs, [
@@ -325,6 +346,7 @@ def inproc(ctx):
         ("sel2", "bad_indices (fun b : bool => b) sel2chk 0"),
         ("sel2z", "bad_indices (fun b : bool => b) sel2zchk 0"),
         ("opts", "bad_indices agree4 optcases 0"),
+        ("off", "bad_indices agree4off offcases 0"),
         ("fin", "bad_indices (fun p : cfg * list ev * list seen5 * bool => let '(a, b, r, _) := p in ok_fin a b r) fincases 0"),
         ("finfired", "bad_indices (fun p : cfg * list ev * list seen5 * bool => let '(a, b, _, _) := p in negb (fin_fired a b)) "
                      "fincases 0"),
@@ -418,6 +440,13 @@ def inproc(ctx):
                       {"mode": "inproc", "cfg": dict(c["cfg"], shape=sh), "events": c["evs"],
                        "impl_states": c[sh]["states"], "impl_records": c[sh]["recs"],
                        "env": mch.cfg_env(c["cfg"])}, True)
+    if R["off"]:
+        c = offcases[R["off"][0]]
+        ctx.violation("model and libmcount disagree on %d case(s) recorded with --disable (tracing starts switched off)"
+                      % len(R["off"]),
+                      {"correspondence": "UV.Mcount.Model from init_off vs libmcount with UFTRACE_TRACE_OFF (state after each hook + "
+                       "records)", "cfg": c["cfg"], "env": mch.cfg_env(c["cfg"]), "events": c["evs"],
+                       "impl_states": c["res"]["states"], "impl_records": c["res"]["recs"]}, False)
     for j in R["method"][:2]:
         p = pairs[j]
         ctx.violation("C05: recorded trace depends on the instrumentation method",
